@@ -54,12 +54,24 @@ def _bp_case(args):
             exact = rng.sample(names, min(len(names), rng.randint(0, 2))) + (["no.such.label"] if rng.random() < 0.3 else [])
             cands = ["---", ":start:", "code", "halt", "d", "t", "i", "y", "x", "wflip", "rep", "zzz"]
             cands += [rng.choice(names)[rng.randrange(3):][:rng.randint(1, 6)] for _ in range(3)]
-            contains = [c for c in rng.sample(cands, rng.randint(0, 2)) if c]
+            # substrings are literal text: pieces of real names from anywhere in the name (label names contain . ( ) : -),
+            # whole names, and the punctuation itself
+            special = [n_ for n_ in names if any(ch in n_ for ch in ".()[]*+?|^$\\")] or names
+            for _ in range(4):
+                n_ = rng.choice(special)
+                i_ = rng.randrange(len(n_))
+                cands.append(n_[i_:i_ + rng.randint(1, 12)])
+            cands += [rng.choice(names), ".", "(", ")", "(1)", "(2)", "a.", ".b", "|", "x|y"]
+            contains = [c for c in rng.sample(cands, rng.randint(0, 3)) if c]
             addrs = rng.sample(sorted(set(table.values())), min(2, rng.randint(0, 2))) + ([12345 * w] if rng.random() < 0.3 else [])
-            with contextlib.redirect_stdout(io.StringIO()):
-                h = get_breakpoint_handler(d / "p.fjd", set(addrs) or None, set(exact) or None, set(contains) or None)
+            try:
+                with contextlib.redirect_stdout(io.StringIO()):
+                    h = get_breakpoint_handler(d / "p.fjd", set(addrs) or None, set(exact) or None, set(contains) or None)
+                got = [jint(a) for a in sorted(h.breakpoints)]
+            except Exception:  # noqa: BLE001  (resolution must not fail: reported as an impossible address)
+                got = [jint(-1)]
             queries.append({"addrs": [jint(a) for a in addrs], "exact": [codes(e) for e in exact], "contains": [codes(c) for c in contains],
-                            "got": [jint(a) for a in sorted(h.breakpoints)]})
+                            "got": got})
         return {"rec": {"table": [[codes(n), jint(a)] for n, a in table.items()],
                         "reloaded": [[codes(n), jint(a)] for n, a in reloaded.items()], "queries": queries},
                 "source": "\n".join(items)}
